@@ -161,7 +161,19 @@ def lagrange_diff_rows(ts, rows):
 
 class C20(Family):
     prop = "C20"
-    extra_modules = ["CtrlVerif.Props.C20Cert"]    # the construction always passes its certificate
+    # source-text tie (notes/NOTES-py2lean-arith.md): Generated/{Poly,Bezier}EvalDeriv.lean are rewritten
+    # from the text of PolyFamily.eval_deriv / BezierFamily.eval_deriv of the tree under check on every
+    # run and proved equal to the model `Basis.evalDeriv?`
+    extra_modules = ["CtrlVerif.Props.C20Cert",    # the construction always passes its certificate
+                     "CtrlVerif.Props.C20Gen"]
+
+    def pre_build(self):
+        import os
+        from core import py2lean_arith, leanproj
+        repo = os.environ.get("VERIF_REPO") or "/repo"
+        problems, self.gen_info = py2lean_arith.regenerate(
+            repo, leanproj.LEAN, ("poly_eval_deriv", "bezier_eval_deriv"))
+        return problems
     externals = ["numpy.linalg.lstsq (minimum-norm solution; the model computes M^T (M M^T)^-1 Z by a "
                  "certified exact solve, agreement is part of the correspondence)",
                  "numpy.poly / numpy.linalg.solve / inv / matrix_rank in reachable_form (exact "
